@@ -1101,4 +1101,10 @@ func writeEvidence(id string, ps *propSpec, tier string, seed uint64, a *agg, b 
 	os.MkdirAll(dir, 0o755)
 	jb, _ := json.MarshalIndent(ev, "", " ")
 	os.WriteFile(filepath.Join(dir, id+".json"), jb, 0o644)
+	if tier == "thorough" {
+		// kept beside the evidence of the latest run, which a later quick run replaces
+		td := filepath.Join(dir, "thorough")
+		os.MkdirAll(td, 0o755)
+		os.WriteFile(filepath.Join(td, id+".json"), jb, 0o644)
+	}
 }
